@@ -66,7 +66,11 @@ func runC17(c *core.Ctx, b core.Batch) {
 			hist := func(s string) { wops = append(wops, s) }
 			in := c17Input(r, mt, lazyFds, fo, hist)
 			if k%5 == 4 {
-				in = gen.Mutate(r, in, hist)
+				if r.Bool() {
+					in = gen.ConfuseWire(r, in, mt.Descriptor(), hist)
+				} else {
+					in = gen.Mutate(r, in, hist)
+				}
 			}
 			c17Case(c, r, mt, name, lazyFds, in, wops, fo)
 		}
